@@ -120,6 +120,13 @@ def _classify_expr(e, ctx):
             and not e.keywords and isinstance(e.args[0], ast.Name) and e.args[0].id in VALUE_NAMES
             and e.args[0].id in ctx.params):
         return ("value", True, e.args[0].id)
+    # the text of the exception being handled (`{e}` / `{str(e)}` in an `except ... as e:` block) and a loop
+    # index: plain texts read off the raising frame, like a constraint parameter
+    inner = e.args[0] if (isinstance(e, ast.Call) and isinstance(e.func, ast.Name) and e.func.id == "str"
+                          and len(e.args) == 1 and not e.keywords) else e
+    if isinstance(inner, ast.Name) and inner.id in ctx.tainted and inner.id not in VALUE_NAMES \
+            and inner.id not in ctx.params:
+        return ("param", ast.unparse(e))
     # Param: only self, parameters that are not the value, plain locals, pure builtins, comprehension variables
     comp = set()
     for n in ast.walk(e):
